@@ -78,7 +78,15 @@ ZBig == <<TOct(NoSz), TStr("utf8", NoSz), TOct(Sz(0, 65535, FALSE)), TOct(Sz(1, 
           TSeqOf(TBool, NoSz), TStr("ia5", NoSz), TStr("num", NoSz), TBits(NoSz), TSeqOf(I07, Sz(1, 2, TRUE))>>
 BigLens == <<16383, 16384, 16385, 32768, 49153, 65535, 65536, 65537, 81920>>
 
-Zoo == ZInts \o <<TBool, TNull>> \o ZEnums \o ZOcts \o ZBits \o ZStrs \o ZLists \o ZShapes \o ZClassShapes \o ZChoices \o ZNested \o ZBig
+\* alignment: a BIT STRING / OCTET STRING longer than two octets behind k = 1..7 bits, followed by another component
+\* (the bulk copy of more than 16 bits at every bit offset, with every tail length - see ExtraVals)
+ZAlign == [q \in 1..14 |->
+             LET k == ((q - 1) % 7) + 1
+             IN TSeq(<<Comp(TInt(Rng(0, (2 ^ k) - 1, FALSE)), "man", <<>>),
+                       Comp(IF q <= 7 THEN TBits(Sz(17, 33, FALSE)) ELSE TOct(Sz(3, 4, FALSE)), "man", <<>>),
+                       Comp(TInt(Rng(0, 255, FALSE)), "man", <<>>)>>, 3, FALSE)]
+
+Zoo == ZInts \o <<TBool, TNull>> \o ZEnums \o ZOcts \o ZBits \o ZStrs \o ZLists \o ZShapes \o ZClassShapes \o ZChoices \o ZNested \o ZAlign \o ZBig
 IsBig(i) == i > Len(Zoo) - Len(ZBig)
 
 (***************************************************************************)
@@ -146,10 +154,12 @@ HowSet(t, i) ==
       alt == IF Structured(c.t) THEN {3} ELSE {}
   IN IF c.mode = "def" THEN {1, 2}      \* the Rust field of a DEFAULT component is not optional: it always has a value
      ELSE IF c.mode = "opt" \/ ~IsRoot(t, i) THEN {0, 1} \cup alt ELSE {1} \cup alt
+\* the product of the HowSets, built component by component (not filtered out of all 4^n functions)
+RECURSIVE Pats(_, _)
+Pats(t, i) == IF i > Len(t.comps) THEN {<<>>} ELSE {<<h>> \o r : h \in HowSet(t, i), r \in Pats(t, i + 1)}
 SeqVals(t) ==
   LET n == Len(t.comps)
-      pats == {p \in [1..n -> 0..3] : \A i \in 1..n : p[i] \in HowSet(t, i)}
-      ps == SetToSeq(pats)
+      ps == SetToSeq(Pats(t, 1))
   \* a sequence, not a set: two values of one CHOICE component are of different kinds, which TLC cannot compare
   IN [j \in 1..Len(ps) |-> [i \in 1..n |-> CompVal(t.comps[i], i, ps[j][i])]]
 
@@ -166,6 +176,21 @@ Rep(t) ==
                               [i \in 1..n |-> CompVal(t.comps[i], i, IF t.comps[i].mode = "man" /\ IsRoot(t, i) THEN 1
                                                                      ELSE IF t.comps[i].mode = "def" THEN 2 ELSE 0)]>>
     [] t.k = "choice" -> <<[i |-> 0, v |-> Rep(t.alts[1])[1]], [i |-> Len(t.alts) - 1, v |-> Rep(t.alts[Len(t.alts)])[1]]>>
+
+\* hand-picked additional values, by the structure of the type:
+\*  - unconstrained strings / lists at the 127 / 128 boundary of the one- / two-octet length determinant,
+\*  - UTF8String values in which a two- or three-octet character straddles octet 64 (where diagnostics abbreviate),
+\*  - the alignment family: every BIT STRING length 17..33 (all ones) behind k bits
+Ascii(n) == [j \in 1..n |-> 97 + (j % 26)]
+ExtraVals(t) ==
+  CASE t.k \in {"oct", "bits", "seqof", "str"} /\ t.sz.c = "none" ->
+         [j \in 1..3 |-> ListOfLen(t, 126 + j)]
+         \o (IF t.k = "str" /\ t.cs = "utf8"
+             THEN [j \in 1..8 |-> Ascii(58 + j) \o <<228, 97>>] \o [j \in 1..6 |-> Ascii(59 + j) \o <<8364>>]
+             ELSE <<>>)
+    [] t.k = "seq" /\ Len(t.comps) = 3 /\ t.comps[2].t.k = "bits" /\ t.comps[2].t.sz.c = "sz" /\ t.comps[2].t.sz.ub = 33 ->
+         [j \in 1..17 |-> << <<t.comps[1].t.con.ub>>, <<Ones(16 + j)>>, <<255>> >>]
+    [] OTHER -> <<>>
 
 \* a sequence, not a set: values of different alternatives are of different kinds and TLC cannot
 \* compare them, which building a set would require
